@@ -30,6 +30,7 @@ type lockProg struct {
 type c18Case struct {
 	Backend string     `json:"backend"`
 	Progs   []lockProg `json:"contenders"`
+	TTL     time.Duration `json:"ttl,omitempty"` // 0 = 5 s
 	Bound   int        `json:"preemption_bound"`
 	Choices []int      `json:"choices,omitempty"`
 }
@@ -55,7 +56,7 @@ func getMon(x *schedRun) *lockMon {
 
 const lockTTL = 5 * time.Second
 
-func contender(name string, p lockProg) schedThread {
+func contender(name string, p lockProg, lockTTL time.Duration) schedThread {
 	return schedThread{Name: name, Run: func(ctx context.Context, x *schedRun) {
 		mon := getMon(x)
 		lk, err := x.Inst(name).Store.CreateLock("the-key", lockTTL)
@@ -121,7 +122,7 @@ func c18Explore(t *testing.T, c *vcore.Ctx) {
 	if dir == "" {
 		dir = t.TempDir()
 	}
-	c.SetRule("contenders on one key, each = (Lock | TryLock) then critical section (hold 0 / 1 s / long) then Unlock, on separate lock objects from Store.CreateLock with TTL = wait timeout = 5 s; etcd and redis backends; every interleaving of their backend requests (2 contenders: all; 3 contenders: preemption bound 2); non-trivial = distinct schedules in which at least two contenders' requests interleave")
+	c.SetRule("contenders on one key, each = (Lock | TryLock) then critical section (hold 0 / 1 s / long) then Unlock, on separate lock objects from Store.CreateLock with TTL = wait timeout = 5 s, plus a holder staying 2.2 s inside a 2.5 s lease; etcd and redis backends; every interleaving of their backend requests (2 contenders: all; 3 contenders: preemption bound 2); non-trivial = distinct schedules in which at least two contenders' requests interleave")
 	c.Assume("etcd = memetcd under the real clientv3/concurrency recipe (keep-alive loop runs under virtual time); redis = miniredis (TTL moved with FastForward together with virtual time)")
 	c.Assume("holders stay within the lock's lease: on redis the long hold is 4 s < TTL, on etcd the session keeps the lease alive so the long hold is 7 s > wait timeout")
 	b := world.NewBackend(dir, true)
@@ -154,6 +155,11 @@ func c18Explore(t *testing.T, c *vcore.Ctx) {
 			for _, p2 := range progs[i:] {
 				cases = append(cases, c18Case{Backend: be, Progs: []lockProg{p1, p2}, Bound: -1})
 			}
+		}
+		// a lease that is not a whole number of seconds: the holder stays inside it (2.2 s < 2.5 s) but
+		// beyond its whole-second part
+		for _, op := range []string{"lock", "trylock"} {
+			cases = append(cases, c18Case{Backend: be, TTL: 2500 * time.Millisecond, Progs: []lockProg{{"lock", 2200 * time.Millisecond}, {op, 0}}, Bound: -1})
 		}
 		// three contenders, preemption bound 2
 		triples := [][]lockProg{
@@ -204,7 +210,11 @@ func c18Scenario(cc *c18Case) *schedScenario {
 	sc := &schedScenario{Name: "locks", Horizon: 60 * time.Second, Quantum: 250 * time.Millisecond}
 	sc.Opts = world.InstanceOpts{Redis: cc.Backend == "redis", NoWAL: true}
 	for i, p := range cc.Progs {
-		sc.Threads = append(sc.Threads, contender(fmt.Sprintf("T%d", i+1), p))
+		ttl := cc.TTL
+		if ttl == 0 {
+			ttl = lockTTL
+		}
+		sc.Threads = append(sc.Threads, contender(fmt.Sprintf("T%d", i+1), p, ttl))
 	}
 	return sc
 }
